@@ -135,6 +135,9 @@ def run(ck):
           if okabs else "a pending cancellation could interrupt the clean-up", rf,
           absorb[0].ast if absorb else rf.node)
 
+    from rules.shared import pending_cancel_absorbed
+    pending_cancel_absorbed(ck, R2)
+
     # ------------------------------------------------------------------ R08.3
     sites = []
     for fi in prog.pkg_funcs():
@@ -638,7 +641,12 @@ def _own_ctrl_start(ck, R, fi, x):
                                           and call_name(a.value) == 'gather' and
                                           any(isinstance(s, ast.Starred) and norm(s.value) == coll
                                               for s in a.value.args) for a in walk_shallow(n.ast)))
-        empty = [n for n in g.nodes if n.kind == 'branch' and not n.polarity and norm(n.test.ast) == coll]
+        from sa.cfg import decompose, canon_fact
+        empties = {canon_fact(ast.parse(t_, mode='eval').body, False) for t_ in
+                   (coll, f'len({coll}) > 0', f'len({coll})', f'len({coll}) != 0', f'len({coll}) >= 1')}
+        empties.add(canon_fact(ast.parse(f'len({coll}) == 0', mode='eval').body, True))
+        empty = [n for n in g.nodes if n.kind == 'branch' and
+                 any(canon_fact(e, p_) in empties for e, p_ in decompose(n.test.ast, n.polarity))]
         ok = bool(ga) and g.path_avoiding(addn[0], [g.exit], avoid=ga + empty,
                                           start_successors_only=True) is None
     ck.ob(R, f"{fi.fid} :: {norm1(x)}", ok,
